@@ -6,8 +6,13 @@ rows = []
 for m in sorted(glob.glob(os.path.join(ROOT, "seeded", "*", "meta.json"))):
     o = json.load(open(m))
     res = o.get("results") or []
-    caught = [r.split(" ")[1] for r in res if r.startswith("CAUGHT")]
-    missed = [r.split(" ")[1] for r in res if r.startswith("MISSED")]
+    caught, missed = [], []
+    for r in res:
+        m = re.search(r"(CAUGHT|MISSED) (C\d+)", r)
+        if m:
+            (caught if m.group(1) == "CAUGHT" else missed).append(m.group(2) + (" (after strengthening)" if r.startswith("(") else ""))
+    missed = [x for x in missed if x not in [c.split(" ")[0] for c in caught]]
+    caught = sorted(set(caught), key=caught.index)
     why = ""
     for r in res:
         if r.startswith("CAUGHT"):
